@@ -443,7 +443,7 @@ class DAN(DA):
         return xr.ODCExtensionDa(self)
 
 
-def h_reproject_assembly(crs_name, dst_crs):
+def h_reproject_assembly(crs_name, dst_crs, enc=True):
     """_xr_reproject_da with the warp stubbed: the output's recovered GeoBox equals the requested
     destination GeoBox (shape, CRS, all six coefficients) -- also after an operation that drops
     the encoding (arithmetic) --, exactly one CRS coordinate remains, coordinates over the old
@@ -470,7 +470,10 @@ def h_reproject_assembly(crs_name, dst_crs):
         src = xarray.DataArray(np.zeros((2, ny, nx), dtype="uint8"), coords={**coords, "time": [10, 20], "tag": "v1"}, dims=("time", "y", "x"),
                                attrs={"units": "m", "crs": "EPSG:3857", "epsg": 3857, "grid_mapping": crs_name})
         src = src.assign_coords(cell=(("y", "x"), np.zeros((ny, nx))))
-        src.encoding["grid_mapping"] = crs_name
+        if enc:
+            src.encoding["grid_mapping"] = crs_name
+        else:  # a source that went through arithmetic: no encoding, no grid_mapping attribute
+            src.attrs.pop("grid_mapping")
         out = xr._xr_reproject_da(src, dst_g)
         out2 = out + 1  # arithmetic drops the encoding
         for nm, o in (("direct", out), ("after_arithmetic", out2)):
@@ -485,7 +488,10 @@ def h_reproject_assembly(crs_name, dst_crs):
     coords["tag"] = DA("v1", dims=(), name="tag")
     coords["cell"] = DA(None, dims=("y", "x"), name="cell")
     src = DAN(_Arr((2, ny, nx)), coords=coords, dims=("time", "y", "x"), attrs={"units": "m", "crs": "EPSG:3857", "epsg": 3857, "grid_mapping": crs_name})
-    src.encoding["grid_mapping"] = crs_name
+    if enc:
+        src.encoding["grid_mapping"] = crs_name
+    else:
+        src.attrs.pop("grid_mapping")
     saved = (xr.rio_reproject, npmodel.NP.__dict__.get("empty"))
     calls = []
 
@@ -657,7 +663,7 @@ OBLIGATIONS = [
        descr="GCPGeoBox.gcps(): written (col,row) are in this GeoBox's own pixel frame (internal affine applied gives back the control point's pixel position); world side unchanged; ids in order",
        functions=("odc.geo.gcp.GCPGeoBox.gcps",), bounds="3 symbolic control points; internal affine: translation / translation x scale / any invertible affine",
        stubs=("rasterio GroundControlPoint record", "control-point multipoints as vertex lists"), setup=setup, fresh_only=True),
-    Ob("X6_reproject_assembly", h_reproject_assembly, fixed(dict(crs_name="spatial_ref", dst_crs="epsg:32633"), dict(crs_name="crs", dst_crs="epsg:32633"), dict(crs_name="crs", dst_crs="epsg:4326")),
+    Ob("X6_reproject_assembly", h_reproject_assembly, fixed(dict(crs_name="spatial_ref", dst_crs="epsg:32633"), dict(crs_name="crs", dst_crs="epsg:32633"), dict(crs_name="crs", dst_crs="epsg:4326"), dict(crs_name="_crs", dst_crs="epsg:32633", enc=False), dict(crs_name="spatial_ref", dst_crs="epsg:4326", enc=False)),
        descr="_xr_reproject_da output assembly (warp stubbed): recovered GeoBox == requested destination (also once the encoding is gone), one CRS coordinate, old spatial coordinates dropped, others kept, stale attributes pruned",
        functions=("odc.geo._xr_interop._xr_reproject_da", "odc.geo._xr_interop.xr_coords", "odc.geo._xr_interop._locate_geo_info", "odc.geo._xr_interop._locate_crs_coords"),
        bounds="source and destination GeoBoxes axis-aligned with symbolic coefficients and shapes (>= 2); leading time axis; CRS coordinate named spatial_ref or crs",
